@@ -4,6 +4,11 @@
 //!         (p, m, v, files[{path, items, lines, refs, decoys, imports_last}], twins[{kind, file, item, lines, ns, name}], load)
 //!         trace: one record per case for Trace_Modules (p, m, v, lines, class, errkind, prints, status, reads, twins)
 //!         full:  the same plus the rendered file texts and the first error, for replay files / evidence
+//!   c12 disk <progs.ndjson> <cases.ndjson> <trace.ndjson> <full.ndjson> <scratch dir>
+//!         every case is written to <scratch>/dNNNNN/proj/ and compiled once per spelling of the main file (PROG record's
+//!         `spellings`: name, cwd, arg with $P = project dir, $S = its parent) in a CHILD PROCESS whose cwd is set
+//!         accordingly (`c12 diskworker`), through sylt::compile_with_reader_to_writer with sylt::read_file behind a counter
+//!   c12 diskworker <arg> <project dir> <tree files, comma separated>     one compilation + minilua run in THIS process, from its cwd
 //!   c12 probe <dir>      compile and run the project in <dir> (main.sy), print what happened
 //! Nothing is decided here: the import lines, the reference texts and the twins come from the specification,
 //! the expectation (prints, status, load set, "twins are rejected") is checked by TLC on the recorded trace.
@@ -27,6 +32,8 @@ struct Item {
 struct Prog {
     items: Vec<Item>,
     tree: Vec<String>,
+    /// (name, cwd, arg) as the specification spells them
+    spellings: Vec<(String, String, String)>,
 }
 
 fn load_progs(path: &str) -> BTreeMap<i64, Prog> {
@@ -47,7 +54,17 @@ fn load_progs(path: &str) -> BTreeMap<i64, Prog> {
             })
             .collect();
         let tree = r["tree"].as_array().unwrap().iter().map(|x| x.as_str().unwrap().to_string()).collect();
-        out.insert(r["p"].as_i64().unwrap(), Prog { items, tree });
+        let spellings = r["spellings"]
+            .as_array()
+            .map(|a| {
+                a.iter()
+                    .map(|x| {
+                        (x["name"].as_str().unwrap().to_string(), x["cwd"].as_str().unwrap().to_string(), x["arg"].as_str().unwrap().to_string())
+                    })
+                    .collect()
+            })
+            .unwrap_or_default();
+        out.insert(r["p"].as_i64().unwrap(), Prog { items, tree, spellings });
     }
     out
 }
@@ -282,6 +299,110 @@ fn run_case(progs: &BTreeMap<i64, Prog>, case: &Value, stub: &str) -> (Value, Va
     (trace, full)
 }
 
+/// `c12 diskworker <arg> <project dir> <tree>`: compile `arg` exactly as spelled, from this process's cwd, with sylt's own
+/// file reader behind a counter; reads are reported per FILE (canonical path relative to the project directory).
+fn diskworker(arg: &str, root: &str, tree: &str) {
+    vharness::project::quiet_panics();
+    let root_c = std::fs::canonicalize(root).unwrap_or_else(|e| tool_error(&format!("{}: {}", root, e)));
+    let reads: std::cell::RefCell<BTreeMap<String, usize>> = std::cell::RefCell::new(BTreeMap::new());
+    let asked: std::cell::RefCell<Vec<String>> = std::cell::RefCell::new(Vec::new());
+    let mut out: Vec<u8> = Vec::new();
+    let a = sylt::Args { args: vec![arg.to_string()], ..Default::default() };
+    let res = {
+        let reader = |path: &Path| {
+            let key = match std::fs::canonicalize(path) {
+                Ok(c) => c.strip_prefix(&root_c).map(|r| r.to_string_lossy().to_string()).unwrap_or_else(|_| c.to_string_lossy().to_string()),
+                Err(_) => format!("?{}", path.to_string_lossy()),
+            };
+            *reads.borrow_mut().entry(key).or_insert(0) += 1;
+            asked.borrow_mut().push(path.to_string_lossy().to_string());
+            sylt::read_file(path)
+        };
+        let out_ref: &mut dyn std::io::Write = &mut out;
+        std::panic::catch_unwind(std::panic::AssertUnwindSafe(|| sylt::compile_with_reader_to_writer(&a, reader, out_ref)))
+    };
+    let res = match res {
+        Ok(Ok(())) => CompileResult::Ok { lua: String::from_utf8_lossy(&out).to_string() },
+        Ok(Err(errs)) => CompileResult::Err { errors: errs.iter().map(vharness::project::err_info).collect(), bytes_written: out.len() },
+        Err(_) => CompileResult::Panic { message: "panic while compiling from disk".into(), bytes_written: out.len() },
+    };
+    let (errkind, errtext) = first_error(&res);
+    let (mut prints, mut status) = (Vec::new(), "none".to_string());
+    if let CompileResult::Ok { lua } = &res {
+        let obs = vharness::luarun::run(lua);
+        if let vharness::luarun::Status::Unsupported { message } = &obs.status {
+            tool_error(&format!("minilua does not support something the chunk used: {}", message));
+        }
+        prints = obs.prints.clone();
+        status = obs.status.short();
+    }
+    let reads = reads.into_inner();
+    let mut read_list: Vec<Value> = tree.split(',').map(|f| json!({"path": f, "n": reads.get(f).copied().unwrap_or(0)})).collect();
+    for (path, n) in reads.iter() {
+        if !tree.split(',').any(|f| f == path) {
+            read_list.push(json!({"path": path, "n": n}));
+        }
+    }
+    println!(
+        "{}",
+        json!({"class": res.class(), "errkind": errkind, "error": errtext, "prints": prints, "status": status,
+               "reads": read_list, "asked": asked.into_inner()})
+    );
+}
+
+fn disk_case(progs: &BTreeMap<i64, Prog>, case: &Value, k: usize, scratch: &Path, exe: &Path) -> Vec<(Value, Value)> {
+    let prog = progs.get(&case["p"].as_i64().unwrap()).unwrap_or_else(|| tool_error("case for an unknown program"));
+    let project = project_of(prog, case, None, "");
+    let s_dir = scratch.join(format!("d{:05}", k));
+    let p_dir = s_dir.join("proj");
+    for (rel, text) in project.files.iter() {
+        let path = p_dir.join(rel);
+        std::fs::create_dir_all(path.parent().unwrap()).unwrap_or_else(|e| tool_error(&format!("{}: {}", path.display(), e)));
+        std::fs::write(&path, text).unwrap_or_else(|e| tool_error(&format!("{}: {}", path.display(), e)));
+    }
+    let subst = |t: &str| t.replace("$P", &p_dir.to_string_lossy()).replace("$S", &s_dir.to_string_lossy());
+    let lines: Vec<Value> = case["files"].as_array().unwrap().iter().map(|f| f["lines"].clone()).collect();
+    let used: BTreeMap<String, String> = case["files"]
+        .as_array()
+        .unwrap()
+        .iter()
+        .map(|f| {
+            let p = f["path"].as_str().unwrap().to_string();
+            let t = project.files[&p].clone();
+            (p, t)
+        })
+        .collect();
+    let mut out = Vec::new();
+    for (name, cwd, arg) in prog.spellings.iter() {
+        let o = std::process::Command::new(exe)
+            .arg("diskworker")
+            .arg(subst(arg))
+            .arg(&p_dir)
+            .arg(prog.tree.join(","))
+            .current_dir(subst(cwd))
+            .output()
+            .unwrap_or_else(|e| tool_error(&format!("cannot start a disk worker: {}", e)));
+        if !o.status.success() {
+            tool_error(&format!("disk worker exited with {:?}: {}", o.status.code(), String::from_utf8_lossy(&o.stderr)));
+        }
+        let w: Value = serde_json::from_str(String::from_utf8_lossy(&o.stdout).trim())
+            .unwrap_or_else(|e| tool_error(&format!("disk worker output: {}", e)));
+        let trace = json!({
+            "p": case["p"], "m": case["m"], "v": case["v"], "spelling": name, "cwd": cwd, "arg": arg, "lines": lines,
+            "class": w["class"], "errkind": w["errkind"], "prints": w["prints"], "status": w["status"],
+            "reads": w["reads"], "twins": [],
+        });
+        let full = json!({
+            "p": case["p"], "m": case["m"], "v": case["v"], "spelling": name, "cwd": cwd, "arg": arg, "files": used,
+            "class": w["class"], "error": w["error"], "prints": w["prints"], "status": w["status"], "detail": "",
+            "reads": w["reads"], "asked": w["asked"], "twins": [],
+        });
+        out.push((trace, full));
+    }
+    let _ = std::fs::remove_dir_all(&s_dir);
+    out
+}
+
 fn load_dir(root: &Path, rel: &str, files: &mut BTreeMap<String, String>) {
     let dir = if rel.is_empty() { root.to_path_buf() } else { root.join(rel) };
     for e in std::fs::read_dir(&dir).unwrap() {
@@ -314,6 +435,30 @@ fn main() {
             write_ndjson(Path::new(&args[4]), &t);
             write_ndjson(Path::new(&args[5]), &f);
             println!("{}", t.len());
+        }
+        "disk" => {
+            if args.len() < 7 {
+                tool_error("usage: c12 disk <progs> <cases> <trace> <full> <scratch>");
+            }
+            let progs = load_progs(&args[2]);
+            let cases: Vec<Value> = read_ndjson(Path::new(&args[3]));
+            let scratch = Path::new(&args[6]).to_path_buf();
+            let exe = std::env::current_exe().unwrap_or_else(|e| tool_error(&format!("current_exe: {}", e)));
+            let recs = vharness::pool::par_map(&cases, |k, c| disk_case(&progs, c, k, &scratch, &exe));
+            let (t, f): (Vec<Value>, Vec<Value>) = recs.into_iter().flatten().unzip();
+            write_ndjson(Path::new(&args[4]), &t);
+            write_ndjson(Path::new(&args[5]), &f);
+            let _ = std::fs::remove_dir_all(&scratch);
+            println!("{}", t.len());
+        }
+        "diskworker" if args.len() == 5 => {
+            let a = args.clone();
+            std::thread::Builder::new()
+                .stack_size(256 << 20)
+                .spawn(move || diskworker(&a[2], &a[3], &a[4]))
+                .unwrap()
+                .join()
+                .unwrap_or_else(|_| tool_error("disk worker thread died"));
         }
         "probe" => {
             let mut files = BTreeMap::new();
